@@ -65,7 +65,55 @@ def run(prog, rep):
                     ln, p, "closed again" if k == "double" else "used", at), ln, w)
             else:
                 rep.ob("C20.2", fn, "twice", True, "nothing is closed twice or used after its close", fn.loc[0])
-    rep.floor("C20.2", 10)
+    # borrowed descriptors: a constructor that wraps a descriptor it was *given* (an integer parameter stored into the fresh object)
+    # does not own it until it returns the object; the library's callers close the descriptor themselves when the constructor
+    # fails, so a failure exit that also closes it (directly or by handing the half-built object to the type's free function)
+    # closes the number twice - the second close hits whatever another thread opened in between
+    nb = 0
+    for un, u in sorted(prog.units.items()):
+        for fn in sorted(u.functions.values(), key=lambda f: f.loc[0]):
+            ps = fn.param_names()
+            objs = set()
+            for (b, i, n) in fn.nodes():
+                if n["k"] == "asg" and strip_casts(n["r"]) is not None and strip_casts(n["r"])["k"] == "call" and strip_casts(n["r"]).get("callee") in ("p_malloc0", "p_malloc") \
+                        and strip_casts(n["l"]) is not None and strip_casts(n["l"])["k"] == "ref":
+                    objs.add(strip_casts(n["l"])["name"])
+            borrowed = []
+            for (b, i, n) in fn.nodes():
+                if n["k"] == "asg":
+                    l, r = strip_casts(n["l"]), strip_casts(n["r"])
+                    if l is not None and l["k"] == "member" and l.get("arrow") and root_var(l) in objs and r is not None and r["k"] == "ref" and r.get("decl") == "param" \
+                            and r["name"] in ps and "*" not in (r.get("ts") or "") and l["field"] in ("fd", "hdl", "handle"):
+                        borrowed.append((root_var(l), l["field"], r["name"]))
+            for (obj, fld, par) in borrowed:
+                nb += 1
+                closes = []
+                for (b, i, c) in fn.calls():
+                    cn = c.get("callee")
+                    if not c.get("args"):
+                        continue
+                    a0 = strip_casts(c["args"][0])
+                    if cn in DESC_CLOSERS and a0 is not None and ((a0["k"] == "ref" and a0["name"] == par) or (a0["k"] == "member" and root_var(a0) == obj and a0["field"] == fld)):
+                        closes.append((c, "closes it"))
+                    for k, a in enumerate(c["args"]):
+                        a = strip_casts(a)
+                        if a is not None and a["k"] == "ref" and a["name"] == obj and cn in u.functions and fld in closed_fields(u, u.functions[cn], k):
+                            closes.append((c, "hands the object to %s, which closes %s->%s" % (cn, u.functions[cn].param_names()[k], fld)))
+                # do the library's callers close the descriptor themselves when the constructor fails?
+                callers = []
+                for g in u.functions.values():
+                    for (b, i, c) in g.calls():
+                        if c.get("callee") == fn.name and c.get("args"):
+                            v = strip_casts(c["args"][ps.index(par)])
+                            if v is not None and v["k"] == "ref":
+                                after = g.reach_from([b.id])
+                                if any(c2.get("callee") in DESC_CLOSERS and c2.get("args") and root_var(c2["args"][0]) == v["name"] and b2.id in after for (b2, i2, c2) in g.calls()):
+                                    callers.append("%s (line %d)" % (g.name, line(c)))
+                bad = closes and callers
+                rep.ob("C20.2", fn, "borrowed:%s" % par, not bad, "the descriptor parameter %s wrapped into %s->%s is never closed by the constructor itself (%d caller(s) close it when it fails)" % (par, obj, fld, len(callers)) if not bad else
+                       "line %d: %s %s the descriptor it was given in `%s`, and its caller %s closes the same number again when NULL comes back: the second close hits whatever "
+                       "descriptor another thread was given in between" % (line(closes[0][0]), fn.name, closes[0][1], par, callers[0]), closes[0][0] if bad else fn.loc[0])
+    rep.floor("C20.2", 10 + 1)
     rep.floor("C20.4", 60)
 
     # ---- C20.1 ownership table ---------------------------------------------------------------
@@ -239,6 +287,32 @@ def run(prog, rep):
     rep.floor("C20.5", 4)
 
 
+DESC_CLOSERS = ("p_sys_close", "close", "closesocket")
+
+
+def closed_fields(u, fr, k=0, seen=None):
+    """Fields of fr's k-th parameter whose value reaches a descriptor-closing call in fr or in the unit functions it forwards the object to."""
+    seen = seen if seen is not None else set()
+    out = set()
+    if (fr.name, k) in seen or k >= len(fr.param_names()):
+        return out
+    seen.add((fr.name, k))
+    p0 = fr.param_names()[k]
+    for b, i, c in fr.calls():
+        cn = c.get("callee")
+        for ai, a in enumerate(c["args"]):
+            a2 = strip_casts(a)
+            if a2 is None:
+                continue
+            if a2["k"] == "ref" and a2.get("decl") == "local":
+                a2 = fr.resolve(a2) or a2
+            if a2["k"] == "member" and root_var(a2) == p0 and cn in DESC_CLOSERS:
+                out.add(a2["field"])
+            if a2["k"] == "ref" and a2["name"] == p0 and cn in u.functions and cn != fr.name:
+                out |= closed_fields(u, u.functions[cn], ai, seen)
+    return out
+
+
 def released_fields(u, fr, T, seen=None):
     """Fields of fr's first parameter handed to a releasing call in fr or in unit helpers it forwards the object to."""
     seen = seen if seen is not None else set()
@@ -281,6 +355,8 @@ SELFTEST = [
     dict(id="accept-fd-leak-on-failure", file="src/psocket.c", expect="C20.2",
          old="\tif (P_UNLIKELY ((ret = p_socket_new_from_fd (res, error)) == NULL)) {\n\t\tif (P_UNLIKELY (p_sys_close (res) != 0))\n\t\t\tP_WARNING (\"PSocket::p_socket_accept: p_sys_close() failed\");\n\t} else",
          new="\tif (P_LIKELY ((ret = p_socket_new_from_fd (res, error)) != NULL))"),
+    dict(id="new-from-fd-frees-socket-on-failure", file="src/psocket.c", expect="C20.2",
+         old="\tif (P_UNLIKELY (pp_socket_set_details_from_fd (ret, error) == FALSE)) {\n\t\tp_free (ret);", new="\tif (P_UNLIKELY (pp_socket_set_details_from_fd (ret, error) == FALSE)) {\n\t\tp_socket_free (ret);"),
     dict(id="shm-fd-closed-twice", file="src/pshm-posix.c", expect="C20.2",
          old="\tif (P_UNLIKELY ((shm->sem = p_semaphore_new (shm->platform_key, 1,", new="\tp_sys_close (fd);\n\n\tif (P_UNLIKELY ((shm->sem = p_semaphore_new (shm->platform_key, 1,"),
     dict(id="munmap-clamped-size", file="src/pshm-posix.c", expect="C20.3",
